@@ -259,12 +259,13 @@ func runTraced(c *vh.Ctx, root string, p *proj.Project, slots int, after func(ro
 
 // schedEv is one line of a schedule file as the checks see it.
 type schedEv struct {
-	Z    int    `json:"day"`  // day number of the date
-	Date string `json:"date"` // ISO
-	Own  bool   `json:"own"`  // line of the simulated field
-	A    int    `json:"a"`    // amount (kg, dt, m3) / mm / depth
-	B    int    `json:"b"`    // - / concentration / tillage type
-	Kind string `json:"kind,omitempty"`
+	Z     int    `json:"day"`  // day number of the date
+	Date  string `json:"date"` // ISO
+	Own   bool   `json:"own"`  // line of the simulated field
+	A     int    `json:"a"`    // amount (kg, dt, m3) / mm / depth
+	B     int    `json:"b"`    // - / concentration / tillage type
+	Kind  string `json:"kind,omitempty"`
+	Field string `json:"field,omitempty"` // field id of a line of another field
 }
 
 // walkDates draws an ascending list of day numbers: `pre` events before start, then events from
